@@ -23,10 +23,20 @@ func initIdx() {
 		return
 	}
 	index = map[string]int{}
-	words = qrl.WordList[:]
+	words = append([]string(nil), qrl.WordList[:]...) // private copy: the oracle must not follow in-place changes of the global table
 	for i, w := range words {
 		if _, dup := index[w]; !dup {
 			index[w] = i
+		}
+	}
+}
+
+// listUnchanged: the library's global word table still equals the copy taken before the first library call.
+func listUnchanged(c *drv.Ctx, i int64, when string) {
+	for k, w := range qrl.WordList {
+		if w != words[k] {
+			c.Fail(i, "global-word-list-modified-at-run-time", map[string]any{"when": when, "index": k, "expected": words[k], "observed": w})
+			return
 		}
 	}
 }
@@ -340,6 +350,9 @@ func main() {
 				}
 				c.Nontrivial(1)
 				c.Outcome(out)
+				if i%16 == 0 {
+					listUnchanged(c, i, "after a refused decode")
+				}
 				if i == 7 {
 					c.Sample(map[string]any{"kind": kinds[k], "position": p, "phrase": m, "outcome": out})
 				}
